@@ -6,11 +6,22 @@ type Raw<F> = Vec<(F, Vec<(usize, usize)>)>;
 type Normal<F> = BTreeMap<Vec<(usize, usize)>, F>;
 
 fn gen_pow(t: &mut Tape<'_>) -> usize {
-    match t.weighted(&[2, 5, 3, 2]) {
+    match t.weighted(&[2, 5, 3, 2, 1]) {
         0 => 0,
         1 => 1,
         2 => 2,
-        _ => t.range(3, 5) as usize,
+        3 => t.range(3, 5) as usize,
+        // large exponents (below 2^58, so that the total degree of a term with up to 5 factors stays below 2^61)
+        _ => {
+            let a = t.range(6, 57);
+            let x = 1u64 << a;
+            (match t.below(4) {
+                0 => x,
+                1 => x - 1,
+                2 => x + 1,
+                _ => x + t.below(x),
+            }) as usize
+        },
     }
 }
 
@@ -62,6 +73,8 @@ fn gen_terms<F: PrimeField>(t: &mut Tape<'_>, o: &mut Obs, nv: usize, tmax: usiz
             };
             let e = gen_pow(t);
             o.class_if(e == 0, "mv-zero-exponent");
+            o.class_if(e >= 1 << 32, "mv-exponent>=2^32");
+            o.class_if(e > 64, "mv-large-exponent");
             m.push((v, e));
         }
         o.class_if(m.windows(2).any(|w| w[0].0 > w[1].0), "mv-unordered-variables");
@@ -75,8 +88,13 @@ fn gen_terms<F: PrimeField>(t: &mut Tape<'_>, o: &mut Obs, nv: usize, tmax: usiz
 fn mono_eval<F: PrimeField>(m: &[(usize, usize)], x: &[F]) -> F {
     let mut p = F::one();
     for (v, e) in m {
-        for _ in 0..*e {
-            p *= x[*v];
+        if *e <= 64 {
+            for _ in 0..*e {
+                p *= x[*v];
+            }
+        } else {
+            // large exponent: square-and-multiply of ark-ff (field arithmetic, C01)
+            p *= x[*v].pow([*e as u64]);
         }
     }
     p
@@ -244,5 +262,119 @@ pub fn ops_rel<F: PrimeField>(t: &mut Tape<'_>, o: &mut Obs, tmax: usize) -> R {
     let mut x = a.clone();
     no_panic("sub_assign", || x -= &b)?;
     check_poly(&x, &diff, &pts, "sub_assign.", false)?;
+    Ok(())
+}
+
+/// `DenseMVPolynomial::rand(d, l)`: "an l-variate polynomial which is the sum of l d-degree univariate polynomials"
+pub fn rand_rel<F: PrimeField>(t: &mut Tape<'_>, o: &mut Obs, big_field: bool) -> R {
+    use ark_std::rand::SeedableRng;
+    let d = t.weighted(&[1, 2, 2, 2, 2, 1]);
+    let l = gen_nv(t);
+    let mut rng = ark_std::rand::rngs::StdRng::seed_from_u64(t.u64());
+    let x = gen_pt::<F>(t, l);
+    o.show(|| format!("multivariate rand(d={}, l={}) point {}", d, l, fmt_vec(&x, 6)));
+    o.nt(d >= 1 && l >= 2);
+    o.class_if(l == 0, "mv-0-variables");
+    o.class_if(d == 0, "mv-rand-degree-0");
+    let p = no_panic("mv.rand", || MvPoly::<F, SparseTerm>::rand(d, l, &mut rng))?;
+    ensure_eq!(p.num_vars(), l, "mv.rand.num_vars");
+    let deg = p.degree();
+    ensure!(deg <= d, "mv.rand.degree", "rand({}, {}) has degree {}", d, l, deg);
+    if big_field && l >= 1 {
+        // a uniformly random leading coefficient of the 255-bit field is zero with probability 2^-255
+        ensure_eq!(deg, d, "mv.rand.degree", "rand({}, {})", d, l);
+        ensure_eq!(p.terms().len(), 1 + l * d, "mv.rand.term_count", "rand({}, {})", d, l);
+    }
+    let mut seen: BTreeMap<Vec<(usize, usize)>, ()> = BTreeMap::new();
+    let mut val = F::zero();
+    for (c, term) in p.terms() {
+        let key: Vec<(usize, usize)> = term.iter().cloned().collect();
+        ensure!(key.len() <= 1, "mv.rand.univariate", "rand({}, {}) contains the mixed term {:?}", d, l, key);
+        ensure!(key.iter().all(|(v, e)| *v < l && *e >= 1 && *e <= d), "mv.rand.term", "rand({}, {}) contains the term {:?}", d, l, key);
+        ensure!(seen.insert(key.clone(), ()).is_none(), "mv.rand.duplicate", "rand({}, {}) stores the monomial {:?} twice", d, l, key);
+        val += *c * mono_eval(&key, &x);
+    }
+    ensure!(p.evaluate(&x) == val, "mv.rand.evaluate", "rand({}, {}) does not evaluate to the sum of its stored terms", d, l);
+    Ok(())
+}
+
+/// Long term lists (40..=400 terms) over few variables with small exponents, expanded from one tape word: many terms share
+/// a monomial (written in different orders / with split exponents) and many distinct monomials share a total degree, which
+/// is what the sort + merge of `from_coefficients_vec` and the sorted merge of `Add` have to get right at scale.
+fn seeded_terms<F: PrimeField>(seed: u64, nv: usize, nterms: usize, maxpow: u64, small_coeffs: bool) -> Raw<F> {
+    let mut out: Raw<F> = Vec::with_capacity(nterms);
+    for i in 0..nterms as u64 {
+        let mut w = splitmix(seed ^ i.wrapping_mul(0x9e3779b97f4a7c15));
+        let len = if nv == 0 { 0 } else { (w % 4) as usize };
+        w = splitmix(w);
+        let mut m = Vec::with_capacity(len);
+        for _ in 0..len {
+            let v = (w % nv as u64) as usize;
+            w = splitmix(w);
+            let e = (w % (maxpow + 1)) as usize;
+            w = splitmix(w);
+            m.push((v, e));
+        }
+        let c: F = if small_coeffs {
+            // small signed coefficients: sums of merged terms cancel often
+            match w % 5 {
+                0 => F::zero(),
+                1 => F::one(),
+                2 => -F::one(),
+                3 => F::from(2u64),
+                _ => -F::from(2u64),
+            }
+        } else {
+            F::from(splitmix(w)) * F::from(splitmix(w ^ 0x5555))
+        };
+        out.push((c, m));
+    }
+    out
+}
+
+pub fn many_terms_rel<F: PrimeField>(t: &mut Tape<'_>, o: &mut Obs, max_terms: usize) -> R {
+    let nv = t.range(1, 5) as usize;
+    let nterms = match t.weighted(&[2, 3, 1]) {
+        0 => t.range(21, 40) as usize,
+        1 => t.range(40, max_terms as u64 / 2) as usize,
+        _ => t.range(max_terms as u64 / 2, max_terms as u64) as usize,
+    };
+    let maxpow = t.range(1, 3);
+    let small = t.bool();
+    let (sa, sb) = (t.u64(), t.u64());
+    let ra = seeded_terms::<F>(sa, nv, nterms, maxpow, small);
+    let mut rb = seeded_terms::<F>(sb, nv, nterms / 2 + 1, maxpow, small);
+    if t.bool() {
+        // the right operand repeats some of the left operand's terms with the opposite coefficient
+        for (i, (c, m)) in ra.iter().enumerate() {
+            if splitmix(sb ^ i as u64) % 3 == 0 {
+                rb.push((-*c, m.clone()));
+            }
+        }
+        o.class("mv-ops-shared-monomials");
+    }
+    let f = fe::<F>(t);
+    let pts: Vec<Vec<F>> = (0..2).map(|_| gen_pt::<F>(t, nv)).collect();
+    let na = normal(&ra);
+    o.show(|| format!("multivariate, {} raw terms over {} variables (exponents <= {}) -> {} merged terms; f={} point {}", ra.len(), nv, maxpow, na.len(), f, fmt_vec(&pts[0], 6)));
+    o.class("mv-many-terms");
+    o.class_if(ra.len() > 100, "mv-more-than-100-terms");
+    o.nt(nv >= 2 && na.len() >= 2 && pts.iter().any(|p| !is_boolean(p)));
+    o.evals(8);
+    let via_slice = t.bool();
+    let a = no_panic("from_coefficients", || build(nv, &ra, via_slice))?;
+    check_poly(&a, &ra, &pts, "", true)?;
+    let b = no_panic("from_coefficients", || build(nv, &rb, !via_slice))?;
+    check_poly(&b, &rb, &pts[..1], "rhs.", true)?;
+    let cat = |x: &Raw<F>, fx: F, y: &Raw<F>, fy: F| -> Raw<F> {
+        x.iter().map(|(c, m)| (*c * fx, m.clone())).chain(y.iter().map(|(c, m)| (*c * fy, m.clone()))).collect()
+    };
+    let one = F::one();
+    // operator results: values, degree, is_zero (the statement asks for pointwise operators, not for a term count)
+    check_poly(&no_panic("add.ref", || &a + &b)?, &cat(&ra, one, &rb, one), &pts, "add.ref.", false)?;
+    check_poly(&no_panic("sub", || &a - &b)?, &cat(&ra, one, &rb, -one), &pts[..1], "sub.", false)?;
+    let mut x = a.clone();
+    no_panic("add_assign.scaled", || x += (f, &b))?;
+    check_poly(&x, &cat(&ra, one, &rb, f), &pts[..1], "add_assign.scaled.", false)?;
     Ok(())
 }
